@@ -12,10 +12,10 @@ from ..core import Check, Part, Result, must
 def profile(family, big=False):
     if family == '1d':
         return ng.Profile(family='1d', pads=('causal', 'same', 'none'), standalone_bn=True,
-                          exclude=True, reuse=True, multi_input=True,
+                          exclude=True, reuse=True, multi_input=True, fixtures=True,
                           max_blocks=7 if big else 5, kmax=5, min_blocks=2, bn=True)
     return ng.Profile(family='2d', standalone_bn=True, exclude=True, reuse=True,
-                      multi_input=True, max_blocks=7 if big else 5, min_blocks=2, bridge=True,
+                      multi_input=True, fixtures=True, max_blocks=7 if big else 5, min_blocks=2, bridge=True,
                       pads=('causal', 'same', 'none'))
 
 
